@@ -250,6 +250,47 @@ def conversion(ctx):
     sh = [s for s in d.body if isinstance(s, ast.AugAssign) and norm(s.target) == 'p_scell.atoms.pos' and norm(s.value) == 'smallshift']
     ok = len(sh) == 2 and isinstance(sh[0].op, ast.Add) and isinstance(sh[1].op, ast.Sub) and ki and sh[0].lineno < ki[0].lineno < sh[1].lineno
     ctx.ob('CONVERSION', loc, 'the boundary-avoiding small shift is applied before the selection and undone after it', bool(ok), node=d)
+    # which setting is converted: the head of dump() evaluated with a stub lattice of known centering
+    stop = [i for i, st in enumerate(d.body) if isinstance(st, ast.Assign) and norm(st.targets[0]) == 'cps_uvws']
+    ctx.need(len(stop) == 1, 'conventional_to_primitive.dump: cps_uvws assignment not found')
+    head = d.body[:stop[0] + 1]
+
+    def resolve(asked, truth, check=True):
+        used, tested = [], []
+
+        def csb(system, setting=None, **kw):
+            tested.append(setting)
+            return setting == truth
+        ev = SymEval(module_aliases(ctx.mod(C2P)))
+        mil = SymObj(None, {}, 'miller')
+        mil.attrs['vector_primitive_to_conventional'] = lambda m, setting=None: (used.append(setting), m)[1]
+        pth = Path({'system': SymObj(None, {}, 'system'), 'setting': asked, 'smallshift': None, 'rtol': sp.Symbol('rtol'), 'atol': sp.Symbol('atol'), 'check_basis': check,
+                    'check_family': True, 'return_transform': False, 'check_setting_basis': csb, 'miller': mil})
+        try:
+            out = ev.block(head, [pth])
+        except WouldRaise:
+            return 'raise'
+        except Opaque as e:
+            raise AnalysisError('conventional_to_primitive.dump head: %s' % e)
+        if all(q.done == 'raise' for q in out):
+            return 'raise'
+        return used[-1] if len(used) == 1 else 'ambiguous %s' % used
+    bad = []
+    for s_ in SETTINGS:
+        for truth in SETTINGS:
+            r = resolve(s_, truth)
+            want = s_ if s_ == truth else 'raise'
+            if r != want:
+                bad.append('setting=%s on a %s lattice: %s (expected %s)' % (s_, truth, r, want))
+        if resolve(s_, 'p', check=False) != s_:
+            bad.append('setting=%s unchecked: %s' % (s_, resolve(s_, 'p', check=False)))
+    for truth in SETTINGS:
+        r = resolve('t', truth)
+        want = truth if truth in ('t1', 't2') else 'raise'
+        if r != want:
+            bad.append('setting=t on a %s lattice: %s (expected %s)' % (truth, r, want))
+    ctx.ob('CONVERSION', loc, 'the setting converted is the one asked for when the cell has that centering, the generic t resolves to whichever of t1 / t2 the cell has, and any other combination is refused',
+           not bad, '; '.join(bad[:4]), node=d, key='setting resolution')
     d2 = ctx.fn(P2C, 'dump')
     c = [x for x in calls_in(d2) if norm(x.func) == 'miller.vector_conventional_to_primitive']
     ok = len(c) == 1 and norm(c[0].args[0]) in ('np.identity(3)', 'np.eye(3)') and norm(kwarg(c[0], 'setting', 1)) == 'setting'
@@ -341,6 +382,30 @@ def rotate(ctx):
         except Exception:
             ok = False
     ctx.ob('ROTATE', loc, 'atoms kept are those with all three relative coordinates in [0, 1)', ok, node=w[0] if w else fn)
+    # the tolerance ladder: nothing rounded in place under one tolerance may leak into the next
+    lad = [s for s in ast.walk(fn) if isinstance(s, ast.For) and norm(s.iter) == 'tol']
+    ctx.need(len(lad) == 1, 'rotate(): tolerance loop not found')
+    leaks = []
+    for st in ast.walk(lad[0]):
+        tg = None
+        if isinstance(st, ast.Assign) and isinstance(st.targets[0], ast.Subscript):
+            tg = st.targets[0]
+        elif isinstance(st, ast.AugAssign):
+            tg = st.target
+        if tg is None:
+            continue
+        base = tg
+        while isinstance(base, (ast.Subscript, ast.Attribute)):
+            base = base.value
+        if not isinstance(base, ast.Name):
+            continue
+        fresh = [a for a in lad[0].body if isinstance(a, ast.Assign) and norm(a.targets[0]) == base.id and a.lineno < st.lineno and isinstance(a.value, ast.Call)
+                 and norm(a.value.func) not in ('np.asarray', 'np.asanyarray', 'np.array') or
+                 isinstance(a, ast.Assign) and norm(a.targets[0]) == base.id and a.lineno < st.lineno and isinstance(a.value, ast.Call) and norm(a.value.func) == 'np.array' and kwarg(a.value, 'copy') is None]
+        if not fresh:
+            leaks.append('%s written in place at line %d without a fresh value in this pass' % (base.id, st.lineno))
+    ctx.ob('ROTATE', loc, 'every tolerance of the search ladder starts from the unrounded positions (whatever the loop changes in place is recomputed inside the loop)', not leaks, '; '.join(leaks[:3]),
+           node=lad[0], key='ladder fresh')
     ret = [s for s in ast.walk(fn) if isinstance(s, ast.Return)]
     ctx.ob('ROTATE', loc, 'the result is normalised (LAMMPS-compatible, atoms inside) and the transformation handed back on request',
            len(ret) == 1 and norm(ret[0].value).replace(' ', '') == 'newsystem.normalize(return_transform=return_transform)', node=fn)
